@@ -46,9 +46,13 @@ def call_oracle(c):
         v, _ = valgen.build(term)
         alone, _w = PC.impl_pformat(v, dict(c.cfg))
         try:
-            want = ast.dump(ast.parse('(' + alone + '\n)', mode='eval').body)
+            wt = ast.parse('(' + alone + '\n)', mode='eval')
         except SyntaxError as e:
             return 'stand-alone print of an argument does not parse: %s' % e
+        # set iteration order of identity-hashed elements (nan) differs between two builds of the value
+        PC._SortSets().visit(wt)
+        node = PC._SortSets().visit(ast.parse(ast.unparse(node), mode='eval')).body
+        want = ast.dump(wt.body)
         if ast.dump(node) != want:
             return 'argument printed as %s, on its own it prints as %s' % (ast.unparse(node)[:80], alone[:80])
     try:
